@@ -4,6 +4,9 @@ from concurrent.futures import ThreadPoolExecutor
 from vlib import *
 
 KNOWN_TEXT = {
+    "ws-recvmax-counts-control": "ws_read_cb adds the payload of interleaved ping/pong/close frames to the size of the message being "
+                                 "assembled when testing RECVMAXSZ: a message within the limit is refused (1009) if a control frame "
+                                 "arrives between its fragments",
     "ws-dialer-recvmax-ignored": "ws_dialer_dial does not copy recvmax/fragsize into the connection: a WebSocket *client* "
                                  "delivers messages above NNG_OPT_RECVMAXSZ (and ignores NNG_OPT_WS_SENDMAXFRAME)",
     "http-wrbuf-clobbers-unread": "http_prepare formats the response head into conn->buf, the read buffer, overwriting "
@@ -583,6 +586,8 @@ def run(tier, seed, replay=None):
                 key = "ws-dialer-recvmax-ignored"
             if role == "s" and pre > 0:
                 key = "http-wrbuf-clobbers-unread"
+            if key is None and outcome != "violation" and len(irx) < len(srx) and any("payload=03f1" in x for x in iother):
+                key = "ws-recvmax-counts-control"
             closes = [x for x in iother if re.match(r"tx hdr=88", x)]
             bad = None
             if irx != srx:
